@@ -179,7 +179,7 @@ func Generate(r *rand.Rand, hosts []string, o Opts) *Generated {
 				case 8: // the author field points at an activity (of this host) whose object is an actor of another host: an activity is not an author
 					for _, a := range g.Actors {
 						if a.Host != reply.Host {
-							wrap := g.NewActivity(reply.Host, []string{"Announce", "Create", "Follow"}[r.Intn(3)], URL(g.Actors[r.Intn(len(g.Actors))]), URL(a))
+							wrap := g.NewActivity(reply.Host, []string{"Announce", "Like", "Dislike"}[r.Intn(3)], URL(g.Actors[r.Intn(len(g.Actors))]), URL(a))
 							reply.Creators = []*Edge{URL(wrap)}
 							if r.Intn(2) == 0 {
 								reply.Creators = []*Edge{Embed(wrap)}
